@@ -86,15 +86,24 @@ def _impls():
 
 
 def _cls_a(impl, fn, text, pos, exc):
+    """finding class: the cursors share one class per function (they share the cache and duplicate
+    the code); the Buffer's own legacy methods get their own classes."""
     own = 'buffer-own-' if impl == 'Buffer' else ''
     if exc:
         if text == '':
-            return f'{own}empty-text-{exc.lower()}' if impl != 'BufferCursor' else 'buffer-empty-text-indexerror' \
-                if exc == 'IndexError' else f'buffercursor-empty-text-{exc.lower()}'
+            who = {'TextLinesCursor': 'textlines', 'BufferCursor': 'buffer', 'Buffer': 'buffer-own'}[impl]
+            return f'{who}-empty-text-{exc.lower()}'
         return f'{own}{fn}-raises-{exc.lower()}'
     if pos == len(text):
-        return {'lineinfo': f'{own}lineinfo-at-eof-clamped', 'lineat': f'{own}lineat-at-eof-sentinel-line-count',
-                'poscol': f'{own}poscol-at-eof-sentinel-start'}[fn]
+        if fn == 'lineinfo':
+            # two classes: (i) the last line is unterminated and the column is clamped onto its last
+            # character; (ii) the text ends in a line break and the last line is reported instead of the
+            # new empty line (pinned by tests/buffering_test.py::test_line_info_consistency)
+            return own + ('lineinfo-at-eof-after-line-break-reports-last-line' if text[-1:] in ('\n', '\r')
+                          else 'lineinfo-at-eof-clamped')
+        if impl == 'Buffer':
+            return {'lineat': 'buffer-own-posline-at-eof-clamped', 'poscol': 'buffer-own-poscol-at-eof-sentinel-start'}[fn]
+        return {'lineat': 'lineat-at-eof-sentinel-line-count', 'poscol': 'poscol-at-eof-sentinel-start'}[fn]
     return f'{own}{fn}-wrong-inside-text'
 
 
@@ -180,11 +189,13 @@ def run_lines(tier, seed):
             if len(repr(f['witness'])) < len(repr(cur[1]['witness'])):
                 cur[1] = f
     failures = []
+    counts = {}
     for cls, (cnt, f) in merged.items():
         f = dict(f)
         f['detail'] += f' [{cnt} failing (text, offset, function) cases in this class]'
+        counts[cls] = cnt
         failures.append(f)
-    return bitem(
+    items = bitem(
         'C12', 'line-index', function='TextLinesCursor/BufferCursor/Buffer lineinfo, lineat(posline), poscol',
         domain=f"all strings over {{'a',' ',LF,CR}} of length <= {maxlen} ({ntexts} texts) x every offset 0..len x 3 "
                f"implementations x 3 functions" + (f' + {len(extra)} seeded random texts of length 10..59' if extra else ''),
@@ -192,6 +203,11 @@ def run_lines(tier, seed):
         rule='(text, offset) pairs whose expected (line, col) differs from (0, offset) or with offset == len(text)',
         exhaustive=True, samples=[repr(t) for t in ('', 'a', 'a\n', 'a\r\na', '\r\r')], failures=failures,
         note='bounded: line index of both input implementations vs split-at-line-breaks spec (DESIGN 2.4)')
+    for it in items:
+        cls = it.id.rsplit('/', 1)[-1]
+        if cls in counts:
+            it.extra['failing_cases'] = counts[cls]
+    return items
 
 
 # --------------------------------------------------------------------------- (b) parse info
@@ -321,28 +337,33 @@ class NoParse(Exception):
 
 class Inv:
     """one successful rule invocation of the reference parse"""
-    __slots__ = ('rule', 'pos', 'end', 'end2', 'isobj', 'chain', 'kept')
+    __slots__ = ('rule', 'pos', 'end', 'isobj', 'stamps', 'kept', 'single')
 
     def __init__(self, rule, pos):
-        self.rule, self.pos, self.end, self.end2 = rule, pos, None, None
-        self.isobj = False
-        self.chain = []  # invocations returning this same object (inner first), for isobj
-        self.kept = []  # object invocations retained in this invocation's value
+        self.rule, self.pos, self.end = rule, pos, None
+        self.isobj = False  # the rule's value is a fresh dict AST / node
+        self.stamps = []  # for objects: invocations that returned this very object (inner first)
+        self.kept = []  # object invocations retained (at any depth below other values) in this rule's value
+        self.single = None  # the object Inv when the rule's value IS exactly that object
+
+
+BUILTIN_TYPES = ('int', 'str', 'float', 'bool', 'list', 'tuple')
 
 
 class Ref:
     """reference PEG interpreter for the battery subset: ordered choice, greedy closures, whitespace and
     comments skipped before tokens, rule calls and `$` (not before patterns), failures restore."""
 
-    def __init__(self, g: G, text):
+    def __init__(self, g: G, text, asmodel=False):
         self.g = g
         self.text = text
+        self.asmodel = asmodel
         self.rules = {n: (t, e) for n, t, e in g.rules}
         self.skips = [re.compile(g.whitespace if g.whitespace is not None else r'\s+')]
         if g.eol_comments:
             self.skips.append(re.compile(g.eol_comments, re.M))
         if g.comments:
-            self.skips.append(re.compile(g.comments, re.M | re.S) if False else re.compile(g.comments))
+            self.skips.append(re.compile(g.comments, re.M))
 
     def skip(self, p):
         while True:
@@ -354,74 +375,79 @@ class Ref:
             else:
                 return p
 
-    # each eval returns (newpos, kept_objs, single) ; `single` = the Inv when the value IS exactly that
-    # one object (so a returning rule re-stamps it), else None
-    def ev(self, e, p, named_rule):
+    # ev -> (newpos, items, single)
+    #   items : object Invs contributed to the value, wrapped ('N', items) under a name and
+    #           ('O', items, single) under an override
+    #   single: the object Inv when the value of the expression IS exactly that object
+    def ev(self, e, p):
+        text = self.text
         if isinstance(e, Tok):
             p = self.skip(p)
-            if not self.text.startswith(e.s, p):
+            if not text.startswith(e.s, p):
                 raise NoParse
             q = p + len(e.s)
-            # nameguard (default on with whitespace): alnum token followed by alnum char fails
-            if e.s.isalnum() and q < len(self.text) and self.text[q].isalnum():
+            isname = e.s[0].isalpha() and e.s.isalnum()
+            if isname and q < len(text) and text[q].isalnum():  # nameguard
                 raise NoParse
             return q, [], None
         if isinstance(e, Pat):
-            m = re.compile(e.p).match(self.text, p)
+            m = re.compile(e.p).match(text, p)
             if not m:
                 raise NoParse
             return m.end(), [], None
         if isinstance(e, Eof):
             q = self.skip(p)
-            if q != len(self.text):
+            if q != len(text):
                 raise NoParse
             return q, [], None
         if isinstance(e, Call):
             inv = self.call(e.r, p)
             if inv.isobj:
                 return inv.end, [inv], inv
-            return inv.end, list(inv.kept), (inv.kept[0] if len(inv.kept) == 1 and inv.chain else None)
+            return inv.end, list(inv.kept), inv.single
         if isinstance(e, Seq):
-            kept = []
+            items = []
+            valued = [sub for sub in e.es if not isinstance(sub, Eof)]
             single = None
-            for i, sub in enumerate(e.es):
-                p, k, s = self.ev(sub, p, named_rule)
-                kept += k
-                single = s if len(e.es) == 1 else None
-            return p, kept, single
+            for sub in e.es:
+                p, k, s = self.ev(sub, p)
+                items += k
+                if len(valued) == 1 and sub is valued[0]:
+                    single = s
+            return p, items, single
         if isinstance(e, Alt):
             for sub in e.es:
                 try:
-                    return self.ev(sub, p, named_rule)
+                    return self.ev(sub, p)
                 except NoParse:
                     continue
             raise NoParse
         if isinstance(e, Opt):
             try:
-                return self.ev(e.e, p, named_rule)
+                return self.ev(e.e, p)
             except NoParse:
                 return p, [], None
         if isinstance(e, Star):
-            kept = []
+            items = []
             n = 0
             while True:
                 try:
-                    q, k, _ = self.ev(e.e, p, named_rule)
+                    q, k, _ = self.ev(e.e, p)
                 except NoParse:
                     break
                 if q == p:
                     break
                 p = q
-                kept += k
+                items += k
                 n += 1
             if e.plus and n == 0:
                 raise NoParse
-            return p, kept, None
+            return p, items, None
         if isinstance(e, Named):
-            q, k, s = self.ev(e.e, p, named_rule)
+            q, k, s = self.ev(e.e, p)
             return q, [('N', k)], None
         if isinstance(e, Over):
-            q, k, s = self.ev(e.e, p, named_rule)
+            q, k, s = self.ev(e.e, p)
             return q, [('O', k, s)], None
         raise TypeError(e)
 
@@ -431,48 +457,40 @@ class Ref:
         inv = Inv(rule, p)
         has_names = _has(e, Named)
         has_over = _has(e, Over)
-        q, kept, single = self.ev(e, p, has_names)
+        q, items, single = self.ev(e, p)
         inv.end = q
-        # what the rule's value retains
         flat = []
-        singles = []
+        overs = []
 
-        def walk(items, mode):
-            for it in items:
+        def walk(its, mode):
+            for it in its:
                 if isinstance(it, tuple) and it[0] == 'N':
                     if mode in ('names', 'all'):
                         walk(it[1], 'all')
                 elif isinstance(it, tuple) and it[0] == 'O':
                     if mode in ('over', 'all'):
                         walk(it[1], 'all')
-                        singles.append(it[2])
+                        if mode == 'over':
+                            overs.append(it[2])
                 elif mode == 'all':
                     flat.append(it)
 
-        if has_over:
-            walk(kept, 'over')
-        elif has_names:
-            walk(kept, 'names')
-        else:
-            walk(kept, 'all')
+        # an override anywhere makes the rule's value the overridden part(s); else names make a dict AST
+        walk(items, 'over' if has_over else 'names' if has_names else 'all')
         inv.kept = flat
-        if has_names and not has_over:
-            inv.isobj = True  # dict AST (or node built from it)
-            inv.chain = [inv]
-        elif typ and typ not in ('int', 'str', 'float', 'bool', 'list', 'tuple'):
-            inv.isobj = True  # a fresh node wrapping the value
-            inv.chain = [inv]
+        makes_node = self.asmodel and typ and typ.split('::')[0] not in BUILTIN_TYPES
+        if has_over:
+            value_single = overs[0] if len(overs) == 1 else None
+        elif has_names:
+            value_single = None
         else:
-            # value passes through: when it IS exactly one object, this rule re-stamps that object
-            only = None
-            if has_over:
-                if len(singles) == 1 and singles[0] is not None and len(flat) == 1:
-                    only = singles[0]
-            elif single is not None and len(flat) == 1:
-                only = single
-            if only is not None and only is flat[0]:
-                only.chain.append(inv)
-                inv.chain = [True]  # marks: my value is exactly one object (for enclosing pass-through rules)
+            value_single = single
+        if makes_node or (has_names and not has_over):
+            inv.isobj = True
+            inv.stamps = [inv]
+        elif value_single is not None:
+            value_single.stamps.append(inv)  # this rule returns that very object and re-stamps it
+            inv.single = value_single
         return inv
 
     def parse(self):
@@ -536,9 +554,9 @@ def battery():
     gs.append((G('P8', [('start', 'Doc', Seq(Named('parts', Star(Call('part'))), Eof())),
                         ('part', None, Alt(Call('word'), Call('numb'))),
                         ('word', 'Word::Part', Seq(Named('t', W))),
-                        ('numb', 'Numb::Part', Seq(Named('t', N), Named('frac', Opt(Seq(Tok('.'), Over(N))))))],
-                 eol_comments=r'//[^\n]*'),
-               ['a 1 b', ' a // c\n 1.5 // d\n\n zz', '1.5', '// only\n']))
+                        ('numb', 'Numb::Part', Seq(Named('t', N), Named('frac', Opt(Seq(Tok('.'), N)))))],
+                 eol_comments=r'--[^\n]*'),
+               ['a 1 b', ' a -- c\n 1.5 -- d\n\n zz', '1.5', '-- only\n']))
     # 9 custom whitespace (no newline skipping) with explicit newline tokens
     gs.append((G('P9', [('start', None, Seq(Named('rows', Star(Call('row'), plus=True)), Eof())),
                         ('row', None, Seq(Named('cells', Star(Call('cell'), plus=True)), Alt(Tok('\n'), Eof()))),
@@ -583,101 +601,102 @@ def collect_objects(value):
 def check_parseinfo(g: G, text, mode, model=None, parser_cls=None):
     """mode: 'ast' (model.parse), 'asmodel' (model.parse(asmodel=True)), 'gen' (generated parser).
     -> (ncases, nontrivial, failures)"""
-    import tatsu
     from tatsu.exceptions import ParseException
     from tatsu.objectmodel import Node
     fails = []
     gtext = g.text()
-    wit = {'grammar': gtext, 'input': text, 'mode': mode}
+    how = {'ast': 'tatsu.compile(grammar).parse(input, parseinfo=True)',
+           'asmodel': 'tatsu.compile(grammar).parse(input, asmodel=True, parseinfo=True)',
+           'gen': 'exec(tatsu.to_python_sourcecode(grammar)); <Name>Parser().parse(input, parseinfo=True)'}[mode]
+    wit = {'grammar': gtext, 'input': text, 'mode': mode, 'how': how}
 
     def fail(cls, detail):
         fails.append(dict(witness=dict(wit), detail=detail, cls=cls))
 
     try:
-        inv, robjs = Ref(g, text).parse()
+        _inv, expected = Ref(g, text, asmodel=(mode == 'asmodel')).parse()
         ok = True
     except NoParse:
         ok = False
+        expected = []
     try:
         if mode == 'gen':
-            res = parser_cls().parse(text, asmodel=False)
+            res = parser_cls().parse(text, parseinfo=True)
         else:
-            res = model.parse(text, asmodel=(mode == 'asmodel'))
+            res = model.parse(text, asmodel=(mode == 'asmodel'), parseinfo=True)
         got_ok = True
     except ParseException as e:
         got_ok = False
         res = e
     except Exception as e:
-        fail('parse-raises-non-tatsu-exception-with-parseinfo', f'{type(e).__name__}: {e}')
+        fail('parse-with-parseinfo-raises-' + type(e).__name__.lower(), f'{type(e).__name__}: {e}')
         return 1, 0, fails
     if ok != got_ok:
-        # acceptance itself belongs to C01/C09; report (it would invalidate the comparison) but under its own class
+        # acceptance itself belongs to C01/C09; it invalidates the comparison, so it is reported under its own class
         fail('reference-and-parser-disagree-on-acceptance',
-             f'reference interpreter {"accepts" if ok else "rejects"}, parser {"accepts" if got_ok else "rejects: " + str(res)[:120]}')
+             f'reference interpreter {"accepts" if ok else "rejects"}, parser '
+             f'{"accepts" if got_ok else "rejects: " + str(res)[:120]}')
         return 1, 0, fails
     if not ok:
         return 1, 0, fails
     objs = collect_objects(res)
-    typed = {n for n, t, e in g.rules if t}
-    expected = [i for i in robjs]
-    if mode != 'asmodel':
-        # without model building typed rules without names give plain values
-        expected = [i for i in expected if _has(dict((n, e) for n, t, e in g.rules)[i.rule], Named)]
+    rules = {n: e for n, t, e in g.rules}
     remaining = list(expected)
     nontriv = 0
-    lines_of = lambda p: spec_pos(text, p)[0]  # noqa: E731
+
+    def line_of(p):
+        return spec_pos(text, p)[0]
+
+    def triples(invs):
+        return sorted({(c.rule, c.pos, c.end) for i in invs for c in i.stamps})
+
     for o in objs:
-        pi = getattr(o, 'parseinfo', None) if not isinstance(o, dict) else o.get('parseinfo')
-        desc = (type(o).__name__ + ' ' + repr({k: v for k, v in (o.items() if isinstance(o, dict) else vars(o).items())
-                                                if k not in ('parseinfo', '__parseinfo__', 'ctx', '_parent_ref')}))[:160]
+        pi = o.get('parseinfo') if isinstance(o, dict) else getattr(o, 'parseinfo', None)
+        fields = o.items() if isinstance(o, dict) else vars(o).items()
+        desc = (type(o).__name__ + ' ' + repr({k: v for k, v in fields if k not in (
+            'parseinfo', '__parseinfo__', 'ctx', '_parent_ref')}))[:160]
         if pi is None:
             fail('parseinfo-missing', f'{desc} has no parseinfo although parseinfo is on')
             continue
-        # find the reference invocation
-        cands = [i for i in remaining if any(c is not True and (c.rule, c.pos) == (pi.rule, pi.pos) for c in i.chain)]
-        exact = [i for i in cands if any(c is not True and (c.rule, c.pos, c.end) == (pi.rule, pi.pos, pi.endpos)
-                                         for c in i.chain)]
+        got = (pi.rule, pi.pos, pi.endpos)
+        exact = [i for i in remaining if got in triples([i])]
         if exact:
             remaining.remove(exact[0])
-            hit = exact[0]
         else:
-            # classify
-            near = [i for i in remaining if any(c is not True and c.rule == pi.rule for c in i.chain)]
-            exp = sorted({(c.rule, c.pos, c.end) for i in (cands or near or remaining) for c in i.chain if c is not True})
-            got = (pi.rule, pi.pos, pi.endpos)
-            if cands:
-                # same rule and start, other end: trailing-whitespace tolerance only for `$`-terminated rules
-                i = cands[0]
-                c = next(c for c in i.chain if c is not True and (c.rule, c.pos) == (pi.rule, pi.pos))
-                rule_e = dict((n, e) for n, t, e in g.rules)[c.rule]
-                if _has(rule_e, Eof) and pi.endpos in (c.end, _strip_end(g, text, c.end)):
-                    remaining.remove(i)
-                    hit = i
-                else:
-                    fail('parseinfo-endpos-wrong', f'{desc}: parseinfo (rule, pos, endpos) = {got}, consumed text per '
-                         f'reference = {exp}; text[pos:endpos] = {text[pi.pos:pi.endpos]!r}')
-                    remaining.remove(i)
+            samestart = [i for i in remaining if any((c.rule, c.pos) == got[:2] for c in i.stamps)]
+            samerule = [i for i in remaining if any(c.rule == pi.rule for c in i.stamps)]
+            if samestart:
+                i = samestart[0]
+                remaining.remove(i)
+                c = next(c for c in i.stamps if (c.rule, c.pos) == got[:2])
+                # a rule ending in `$`: the end may be taken before or after the trailing whitespace
+                if not (_has(rules[c.rule], Eof) and pi.endpos == _strip_end(g, text, c.end)):
+                    fail('parseinfo-endpos-wrong',
+                         f'{desc}: parseinfo (rule, pos, endpos) = {got}, reference {triples([i])}; '
+                         f'text[pos:endpos] = {text[pi.pos:pi.endpos]!r}')
                     continue
-            elif near:
-                fail('parseinfo-pos-not-after-leading-whitespace' if any(
-                    text[pi.pos:c.pos].strip() == '' and pi.pos < c.pos for i in near for c in i.chain if c is not True)
-                     else 'parseinfo-pos-wrong',
-                     f'{desc}: parseinfo (rule, pos, endpos) = {got}, reference invocations of that rule = {exp}')
+            elif samerule:
+                before_ws = any(pi.pos < c.pos and text[pi.pos:c.pos].strip() == '' for i in samerule for c in i.stamps)
+                fail('parseinfo-pos-before-leading-whitespace' if before_ws else 'parseinfo-pos-wrong',
+                     f'{desc}: parseinfo (rule, pos, endpos) = {got}, reference invocations of that rule '
+                     f'{triples(samerule)}; text[pos:endpos] = {text[pi.pos:pi.endpos]!r}')
                 continue
             else:
-                fail('parseinfo-rule-not-a-returning-rule',
-                     f'{desc}: parseinfo (rule, pos, endpos) = {got}; rules that returned an object here: {exp}')
+                fail('parseinfo-rule-did-not-return-the-object',
+                     f'{desc}: parseinfo (rule, pos, endpos) = {got}; reference (rule, pos, end) of the rules '
+                     f'returning objects: {triples(remaining)}')
                 continue
-        nontriv += 1 if (pi.pos > 0 or lines_of(pi.pos) > 0) else 0
-        # line fields
-        if pi.line != lines_of(pi.pos):
-            fail('parseinfo-line-does-not-match-pos',
-                 f'{desc}: parseinfo.line = {pi.line} but pos {pi.pos} lies on line {lines_of(pi.pos)}')
-        if pi.endline != lines_of(pi.endpos):
-            eof = pi.endpos == len(text)
-            fail('parseinfo-endline-at-eof-sentinel-line-count' if eof else 'parseinfo-endline-does-not-match-endpos',
-                 f'{desc}: parseinfo.endline = {pi.endline} but endpos {pi.endpos} lies on line {lines_of(pi.endpos)}'
-                 f' (text length {len(text)})')
+        if pi.pos > 0:
+            nontriv += 1
+        if pi.line != line_of(pi.pos):
+            fail('parseinfo-line-at-eof-sentinel-line-count' if pi.pos == len(text) else 'parseinfo-line-does-not-match-pos',
+                 f'{desc}: parseinfo.line = {pi.line} but pos {pi.pos} lies on line {line_of(pi.pos)} '
+                 f'(text length {len(text)})')
+        if pi.endline != line_of(pi.endpos):
+            fail('parseinfo-line-at-eof-sentinel-line-count' if pi.endpos == len(text)
+                 else 'parseinfo-endline-does-not-match-endpos',
+                 f'{desc}: parseinfo.endline = {pi.endline} but endpos {pi.endpos} lies on line '
+                 f'{line_of(pi.endpos)} (text length {len(text)})')
         if isinstance(o, Node):
             if o.line != pi.line:
                 fail('node-line-differs-from-parseinfo', f'{desc}: Node.line = {o.line}, parseinfo.line = {pi.line}')
@@ -689,7 +708,7 @@ def check_parseinfo(g: G, text, mode, model=None, parser_cls=None):
         fail('object-of-reference-parse-not-found-in-result',
              f'reference: rule {i.rule} at [{i.pos}:{i.end}) returns a dict AST/node retained in the result; the '
              f'result has no such object (objects found: {len(objs)}, expected {len(expected)})')
-    return 1, (1 if nontriv else 0), fails
+    return max(1, len(objs)), nontriv, fails
 
 
 def _strip_end(g, text, end):
@@ -753,7 +772,7 @@ def run_parseinfo(tier, seed):
                f'{ninputs} curated inputs' + ('' if tier == 'quick' else ' + 40 seeded layout variants per grammar') +
                ' x {model AST, model asmodel=True, generated parser}; every dict AST / node vs reference interpreter',
         bound='battery (not exhaustive)', cases=cases, distinct_nontrivial=nontriv,
-        rule='(grammar, input, mode) parses accepted by both sides with at least one object whose pos > 0',
+        rule='dict ASTs / nodes compared whose parseinfo.pos > 0 (cases = objects compared; rejected inputs count 1)',
         exhaustive=False, samples=[bat[1][0].text(), bat[1][1][2]], failures=failures,
         note='bounded: parseinfo of every dict AST / node vs an independent recomputation of rule spans')
 
